@@ -21,6 +21,8 @@ pub struct Knobs {
     pub failures: bool,
     pub wild_goto_pct: u64,
     pub dense_numbers: bool,
+    /// line numbers start far up (beyond 63999 / 2^32 / near 2^64)
+    pub line_base: u64,
     pub strings: bool,
     pub arrays: bool,
     pub funcs: bool,
@@ -54,6 +56,7 @@ impl Knobs {
             failures: on(40),
             wild_goto_pct: 0,
             dense_numbers: on(30),
+            line_base: 0,
             strings: on(80),
             arrays: on(80),
             funcs: on(70),
@@ -1019,7 +1022,7 @@ impl<'a> Gen<'a> {
         // numbering
         let n = self.lines.len();
         let mut nums = Vec::with_capacity(n);
-        let mut cur: u64 = if self.k.dense_numbers { self.rng.below(3) } else { 10 * (1 + self.rng.below(3)) };
+        let mut cur: u64 = self.k.line_base + if self.k.dense_numbers { self.rng.below(3) } else { 10 * (1 + self.rng.below(3)) };
         for _ in 0..n {
             nums.push(cur);
             cur += if self.k.dense_numbers { 1 + self.rng.below(2) } else { 10 * (1 + self.rng.below(3)) + self.rng.below(2) * 5 };
@@ -1124,7 +1127,10 @@ pub fn reply_for(rng: &mut Rng, numeric_bias: bool) -> Reply {
             let n = rng.below(100) as f64;
             (format!("{}", n), ReplyItem::Num(n))
         }
-        4 => ("2.5".into(), ReplyItem::Num(2.5)),
+        4 => {
+            let (t, n) = rng.pick(&[("2.5", 2.5), ("+5", 5.0), ("+2.5", 2.5), ("1e2", 100.0), ("+3E1", 30.0), (".5", 0.5), ("-.5", -0.5), ("007", 7.0), ("5.", 5.0)]);
+            (t.to_string(), ReplyItem::Num(n))
+        }
         5 => ("-3".into(), ReplyItem::Num(-3.0)),
         6 => ("0.25".into(), ReplyItem::Num(0.25)),
         7 => ("1000000".into(), ReplyItem::Num(1000000.0)),
